@@ -89,6 +89,9 @@ var xforms = []xf{
 	{"translate(10) , scale(2 0.5)", translate(10, 0).mul(scale(2, 0.5)), true},
 	{" rotate( -30 , 10 , 4 ) ", translate(10, 4).mul(rotate(-30)).mul(translate(-10, -4)), true},
 	{"skewY(15)", skewY(15), false},
+	// rotate about a point after other transforms in the same list (its centre is given in the coordinates of that place in the list)
+	{"scale(2,0.5) rotate(30,10,4)", scale(2, 0.5).mul(translate(10, 4)).mul(rotate(30)).mul(translate(-10, -4)), true},
+	{"rotate(20) translate(5,5) rotate(-30,10,4)", rotate(20).mul(translate(5, 5)).mul(translate(10, 4)).mul(rotate(-30)).mul(translate(-10, -4)), true},
 }
 
 type shapeSpec struct {
@@ -566,7 +569,7 @@ func Prop() *fw.Property {
 	return &fw.Property{
 		ID:    "C19",
 		Level: "model_checking",
-		Rule: "every document of the grammar {9 size/viewBox forms (incl. stretched viewBoxes with an offset under preserveAspectRatio=none)} x {14 transform lists (space and comma separated, white space inside), nested up to 2} x {11 shapes} x {18 style sources (presentation attributes in both orders, style attribute, inherited from g, class/id CSS rules, colour syntaxes)} is parsed by ParseSVG; " +
+		Rule: "every document of the grammar {9 size/viewBox forms (incl. stretched viewBoxes with an offset under preserveAspectRatio=none)} x {16 transform lists (space and comma separated, white space inside, rotate about a point after other transforms), nested up to 2} x {11 shapes} x {18 style sources (presentation attributes in both orders, style attribute, inherited from g, class/id CSS rules, colour syntaxes)} is parsed by ParseSVG; " +
 			"an independent evaluator of the SVG semantics for exactly this grammar (viewport/viewBox mapping, right-to-left transform composition, shape-to-path equivalences of SVG 1.1 ch.9, cascade: presentation attribute < CSS rule < style attribute, initial values) gives the expected canvas size, geometry in mm (y up) and computed style; compared with the layer the canvas replays (dense two-sided Hausdorff distance, paints, effective stroke width, cap, join, miter limit)",
 		Assumptions: []string{
 			"grammar as listed; text, gradients, markers, fill-rule, opacity, preserveAspectRatio attributes are outside it",
